@@ -18,12 +18,14 @@ RecInplace(ev) ==
    C07_inplace_returns_receiver |-> (Ok(ev) /\ ev.args.inplace) => ev.obs.ret_is_recv,
    C07_new_object_when_not_inplace |-> (Ok(ev) /\ ~ev.args.inplace) => ~ev.obs.ret_is_recv]
 
+Raw(ev) == "raw" \in DOMAIN ev.args
 NeedsResult(ev) ==
-  Ok(ev) /\ (ev.call \in {"head", "sort_order", "transpose", "copy"}
-             \/ (ev.call \in {"filter", "remove_empty", "update_ids"} /\ ~ev.args.inplace))
+  Ok(ev) /\ ~Raw(ev) /\ (ev.call \in {"head", "sort_order", "transpose", "copy"}
+                         \/ (ev.call \in {"filter", "remove_empty", "update_ids"} /\ ~ev.args.inplace))
 
 RecClauses(ev) ==
-  CASE ev.call = "filter"       -> Clauses_filter_ids(ev) @@ RecInplace(ev)
+  CASE ev.call = "filter" /\ ~Raw(ev) -> Clauses_filter_ids(ev) @@ RecInplace(ev)
+    [] ev.call \in {"filter", "transform", "norm", "pa"} /\ Raw(ev) -> RecInplace(ev)
     [] ev.call = "remove_empty" -> Clauses_remove_empty(ev) @@ RecInplace(ev)
     [] ev.call = "update_ids"   -> Clauses_update_ids(ev) @@ RecInplace(ev)
     [] ev.call = "head"         -> Clauses_head(ev) @@ NewTableClauses(ev)
@@ -33,7 +35,7 @@ RecClauses(ev) ==
                                    @@ NewTableClauses(ev)
     [] ev.call = "add_metadata" -> Clauses_add_metadata(ev)
     [] ev.call = "del_metadata" -> Clauses_del_metadata(ev)
-    [] OTHER -> \* merge, concat, align_to: operations documented to return a new table
+    [] OTHER -> \* merge, concat, align_to, sort, subsample, collapse: documented to return a new table
                 [C07_inputs_unchanged |-> FrameRule(ev, {ev.res}),
                  C07_result_is_a_new_table |-> (Ok(ev) /\ ev.obs.returned_table) => ~ev.obs.ret_is_recv]
 
